@@ -318,12 +318,16 @@ func (db *DB) writeObject(o Object) (err error) {
 		return
 	}
 
-	path := db.oPath(s, o)
-	if err = os.MkdirAll(filepath.Dir(path), DefaultPermissions); err != nil {
+	if data, err = json.Marshal(o); err != nil {
 		return
 	}
 
-	if data, err = json.Marshal(o); err != nil {
+	return db.writeObjectData(s, o, data)
+}
+
+func (db *DB) writeObjectData(s *Schema, o Object, data []byte) (err error) {
+	path := db.oPath(s, o)
+	if err = os.MkdirAll(filepath.Dir(path), DefaultPermissions); err != nil {
 		return
 	}
 
@@ -383,17 +387,21 @@ func (db *DB) initialize(o Object) (err error) {
 }
 
 func (db *DB) insertOrUpdate(s *Schema, o Object, commit bool) (err error) {
+	var data []byte
 
 	// initialize object first
 	if err = db.initialize(o); err != nil {
 		return
 	}
 
-	if s.mustCache() {
-		db.cache.put(o)
+	// a write which fails must leave no trace, so we verify that the
+	// object can be serialized and satisfies the constraints before
+	// modifying cache, index or disk
+	if data, err = json.Marshal(o); err != nil {
+		return
 	}
 
-	if err = s.index(o); err != nil {
+	if err = s.ObjectIndex.satisfyAll(o); err != nil {
 		return
 	}
 
@@ -403,14 +411,22 @@ func (db *DB) insertOrUpdate(s *Schema, o Object, commit bool) (err error) {
 		db.asyncw.put(o)
 	} else {
 		// writing the object to disk
-		if err = db.writeObject(o); err != nil {
+		if err = db.writeObjectData(s, o, data); err != nil {
 			return
 		}
+	}
 
-		// commiting schema and index to disk
-		if commit {
-			return db.commit(o)
-		}
+	if err = s.index(o); err != nil {
+		return
+	}
+
+	if s.mustCache() {
+		db.cache.put(o)
+	}
+
+	// commiting schema and index to disk
+	if commit && !s.asyncWritesEnabled() {
+		return db.commit(o)
 	}
 
 	return
@@ -907,6 +923,12 @@ func (db *DB) InsertOrUpdateMany(objects ...Object) (n int, err error) {
 		// validate object before insertion
 		if err = o.Validate(); err != nil {
 			err = validationErr(o, err)
+			return
+		}
+
+		// an object which cannot be serialized would fail after
+		// some objects of the batch have already been inserted
+		if _, err = json.Marshal(o); err != nil {
 			return
 		}
 
